@@ -234,7 +234,7 @@ func TestVerifC19Fields(t *testing.T) {
 		}
 	}()
 
-	var builds, compared, nontrivial, kaSeen int64
+	var builds, compared, nontrivial, kaSeen, undocumented int64
 	var samples []string
 	var dialJobs []c19DialJob
 	dialSeen := map[string]bool{}
@@ -282,6 +282,24 @@ func TestVerifC19Fields(t *testing.T) {
 					fs = append(fs, fld{"keep-alive(s)", ka, want.Ka / 1000, 15})
 				} else if kerr != nil {
 					verifx.Fail(h, map[string]any{"sub": "fields", "kind": op.Kind, "clause": "dial"}, "history %s: step %d: the transport cannot dial a listening local address: %v", c19HistString(h), i+1, kerr)
+				}
+				// no other limit may be introduced that defeats the configured ones
+				var other []string
+				if tr.MaxIdleConns != 0 {
+					other = append(other, fmt.Sprintf("MaxIdleConns=%d (a cap over ALL hosts defeats proxy.maxconn idle connections per host)", tr.MaxIdleConns))
+				}
+				if tr.MaxConnsPerHost != 0 {
+					other = append(other, fmt.Sprintf("MaxConnsPerHost=%d (requests queue inside the transport, bounded by neither dial nor response-header timeout)", tr.MaxConnsPerHost))
+				}
+				if tr.DisableKeepAlives {
+					other = append(other, "DisableKeepAlives=true (defeats proxy.maxconn / proxy.idleconntimeout)")
+				}
+				if len(other) > 0 {
+					verifx.Fail(h, map[string]any{"sub": "fields", "kind": op.Kind, "clause": "other-limit", "fields": fmt.Sprint(len(other))},
+						"history %s: the %s transport built at step %d carries %v", c19HistString(h), op.Kind, i+1, other)
+				}
+				if tr.TLSHandshakeTimeout != 0 || tr.ExpectContinueTimeout != 0 || tr.MaxResponseHeaderBytes != 0 {
+					undocumented++ // the documentation is silent about these: noted, not judged
 				}
 				var wrong []string
 				allZero := true
@@ -406,7 +424,7 @@ func TestVerifC19Fields(t *testing.T) {
 	}
 	release()
 	verifx.Summary(map[string]any{"cases": len(hs), "builds": builds, "compared": compared, "distinct_nontrivial": nontrivial,
-		"keepalive_observed": kaSeen, "dial_evaluated": dialEvaluated, "dial_unstable": dialUnstable, "dial_transports": len(dialJobs), "samples": samples})
+		"keepalive_observed": kaSeen, "undocumented_limits": undocumented, "dial_evaluated": dialEvaluated, "dial_unstable": dialUnstable, "dial_transports": len(dialJobs), "samples": samples})
 }
 
 func c19HistString(h c19History) string {
